@@ -65,6 +65,43 @@ fn one_case(ctx: &Ctx, case: u64, l: &mut Local) {
         }
         h
     };
+    if case % 32 == 11 {
+        // two DIFFERENT presentations of one credential that agree in the number and in the total
+        // length of their disclosures; a holder of each narrows it further
+        let claims = json!({"iss": "https://issuer.example/A", "exp": api::now() + 7200, "aa": 11, "bb": 22, "cc": 33, "dd": 44});
+        let strat = gen::gen_strategy(&mut r, &claims, gen::StratKind::TopLevel);
+        let mut issuer = api::new_issuer(cfg.alg, 0, true);
+        if let Outcome::Ok(sd) = api::issue(&mut issuer, &claims, &strat, None, false, cfg.fmt) {
+            let mk = |sel: Value| -> Option<String> { api::holder_new(&sd, cfg.fmt).ok().and_then(|mut h| api::present(&mut h, &sel, None).ok()) };
+            if let (Some(p1), Some(p2)) = (mk(json!({"aa": true, "bb": true})), mk(json!({"cc": true, "dd": true}))) {
+                for (pres, keep, want) in [(&p1, "aa", 11), (&p2, "cc", 33), (&p1, "bb", 22), (&p2, "dd", 44)] {
+                    l.evals += 1;
+                    let mut sel = serde_json::Map::new();
+                    sel.insert(keep.to_string(), json!(true));
+                    let out = match api::holder_new(pres, cfg.fmt) {
+                        Outcome::Ok(mut h) => match api::present(&mut h, &Value::Object(sel), None) {
+                            Outcome::Ok(p) => api::verify(&p, &Resolver::Fixed(cfg.alg, 0), None, cfg.fmt).out,
+                            o => o.map(|_| Value::Null),
+                        },
+                        o => o.map(|_| Value::Null),
+                    };
+                    match out {
+                        Outcome::Ok(v) if v.get(keep) == Some(&json!(want)) && v.as_object().map(|o| o.len()) == Some(3) => l.count("twin-presentations.narrowed"),
+                        other => {
+                            l.violate(Violation {
+                                subcheck: "narrowing-fails".into(),
+                                class: "two presentations of one credential with equally many, equally long disclosures".into(),
+                                observed: other.panic_signature().unwrap_or_else(|| other.describe()).chars().take(200).collect(),
+                                case,
+                                detail: json!({"claims": claims, "kept": keep, "format": cfg.fmt.name()}),
+                            });
+                            break;
+                        }
+                    }
+                }
+            }
+        }
+    }
     // first selection: dense, so there is something to narrow
     let first_kind = if r.chance(30) { SelKind::Everything } else { SelKind::RandomDense };
     let mut cur_sel = gen::gen_selection(&mut r, &s.u, first_kind);
